@@ -13,4 +13,6 @@ Grid6Start == {{1, 2, 4}, {2, 4, 5}, {2, 3, 5}, {3, 5, 6}}
 \* 3-D: 6 points in general position
 GP3D == << <<0, 0, 0>>, <<5, 1, 0>>, <<1, 6, 1>>, <<2, 2, 7>>, <<4, 5, 5>>, <<3, 1, 2>> >>
 DTStart == DT
+\* view without the flip counter: cycles of the repair phase become visible to the liveness check
+NoCounterView == <<K, phase, nscr>>
 =============================================================================
